@@ -85,6 +85,15 @@ class Klass(Base, metaclass=type):
 class Data:
     field_a: int
     field_b: str = "x"
+    linked: Base = None
+    def indented(self):
+        """
+            First text line indented more than the rest (cleaning such a text twice is not cleaning it once).
+        The rest.
+        """
+class Derived(Klass.Nested, Base):
+    pass
+TYPED: Callable[[Base], Klass] = None
 if typing.TYPE_CHECKING:
     from os import sep
 '''
@@ -112,7 +121,7 @@ def tree_summary(obj):
         if m.is_class:
             d["bases"] = [str(b) for b in m.bases]
             d["decorators"] = [(str(x.value), x.lineno, x.endlineno) for x in m.decorators]
-            d["resolved"] = [canon(x.value) for x in m.decorators]
+            d["resolved"] = [canon(x.value) for x in m.decorators] + [canon(b) for b in m.bases]
         if not m.is_function and not m.is_attribute:
             d["members"] = tree_summary(m)
         out[name] = d
